@@ -182,7 +182,12 @@ class Exec:
         elif k == "DeclStmt":
             for v in n.get("inner", []):
                 if v.get("kind") == "VarDecl" and v.get("inner"):
-                    self.scan(v["inner"][-1])
+                    init = v["inner"][-1]
+                    if contains(init, is_alloc_call) or contains(init, lambda m: m.get("kind") == "CallExpr"):
+                        self.scan(init)
+                    else:
+                        try: self.env[v["name"]] = self.expr(init)          # a local that names a sub-expression
+                        except Unsupported: self.scan(init)
         elif k == "IfStmt":
             cond, then = n["inner"][0], n["inner"][1]
             if contains(then, is_alloc_call) or contains(then, lambda m: m.get("kind") == "CallExpr" and self.inlinable(m)):
